@@ -193,6 +193,7 @@ def instance2Holds (rate : Option Rat) (F : Midgard.Spec.Rinex2ObsFile.File) : B
   | .error a, .error b => a == b
   | _, _ => false
 
+/-- `wf=` reports `F.wf` together with the evaluated header hypothesis `hdrOk2` of `file_roundtrip2_partial` -/
 def file2 (rate : Option Rat) (F : Midgard.Spec.Rinex2ObsFile.File) : String :=
   let out := match Midgard.Spec.Rinex2ObsFile.expected rate F with
     | .error e => showErr e
@@ -201,7 +202,7 @@ def file2 (rate : Option Rat) (F : Midgard.Spec.Rinex2ObsFile.File) : String :=
       | .ok s' => " ".intercalate (metaTokens s'.metaD ++ dataTokens s'.data s'.timeScale)
       | .noRows => "ERR:no-rows"
       | .error e => showErr e
-  s!"wf={if F.wf then 1 else 0} inst={if instance2Holds rate F then 1 else 0} text={hx (Midgard.Spec.Rinex2ObsFile.render F)} | {out}"
+  s!"wf={if F.wf && Midgard.Spec.Rinex2ObsFile.hdrOk2 rate F then 1 else 0} inst={if instance2Holds rate F then 1 else 0} text={hx (Midgard.Spec.Rinex2ObsFile.render F)} | {out}"
 
 end File2
 
